@@ -428,6 +428,14 @@ def run(repo: Repo, rep, tier: str):
     from props.c04 import check_update_qty_decimal
     rep.rule("C06-R6", "position size arithmetic uses the exact-decimal helpers consistently with the closing test (no binary float += / -)")
     rep.guarded(check_update_qty_decimal, repo, rep, "C06-R6")
+    # the trade's open / close times are the clock values at its fills (Order.execute stamps store.app.time): the simulators must have
+    # set the clock to the end of the fill minute before they execute an order - the fast matcher per fill, the normal one per minute
+    from props.c12 import check_fast_time
+    from props import sessions as S
+    rep.guarded(check_fast_time, repo, rep, "C06-R7")
+    rep.rule("C06-R7n", "mini sessions (props/sessions.py): the normal simulator has advanced the clock to the end of a minute before it stores and "
+                        "matches it, so every fill - and the trade times taken from it - carries the end of its own minute")
+    rep.guarded(S.check_cover, repo, rep, "C06-R7n", clock=True)
     rep.undecided_item("cycles longer than the four enumerated shapes (the per-fill effect summaries of C03 are state independent, so longer cycles compose)")
 
 
